@@ -25,6 +25,8 @@ PatMatches(p, name) ==
     [] p.k = "prefix" -> Len(name) >= Len(p.lit) /\ SubSeq(name, 1, Len(p.lit)) = p.lit
     [] p.k = "suffix" -> Len(name) >= Len(p.lit) /\ SubSeq(name, Len(name) - Len(p.lit) + 1, Len(name)) = p.lit
     [] p.k = "exact" -> name = p.lit
+    \* '^lit?' / '^lit*': the last character of the literal is optional / repeatable - the name starts with the rest
+    [] p.k \in {"prefixopt", "prefixstar"} -> Len(name) >= Len(p.lit) - 1 /\ SubSeq(name, 1, Len(p.lit) - 1) = SubSeq(p.lit, 1, Len(p.lit) - 1)
     [] p.k \in {"anystart", "anyopt", "anystar", "anylook"} -> TRUE     \* patterns every name matches, possibly with an empty match
     [] OTHER -> FALSE
 
